@@ -12,14 +12,15 @@ CLAIMS = {
   text="Kernel-checked (C01, C01_ladder, C01_full, C01_nil): for every valid projective triple P in any representation and every canonical scalar k, "
        "the model of Multiply returns a valid point equal to (value of k) • P in Mathlib's elliptic-curve group over ZMod p; nil scalar gives the identity. "
        "The premises about Bits and IsOne are the proved C14/C13 theorems; the formulas and FromMontgomery are regenerated from the source on every run.",
-  note=TB + "Hand-modelled and tied by the PT.mul family (raw limbs of the result compared, edge scalars x representations, also against an independent affine double-and-add): "
-       "nil handling, the IsOne shortcut and the 256-step loop of multiply."),
+  note=TB + "The ladder step (both branches, Add/Double inlined on shared cells), the loop header and the IsOne test are regenerated and tied by rfl; hand-modelled and tied by the PT.mul "
+       "family (raw limbs of the result, edge scalars x representations, also against an independent affine double-and-add): the composition of Multiply (nil -> identity, the shortcut, 256 iterations)."),
  "C02": dict(
   technique="Lean 4 proof: Renes-Costello-Batina completeness against Mathlib's WeierstrassCurve.Affine.Point, bridged to the regenerated step sequences by ring; limb-level field laws proved",
   text="Kernel-checked for all pairs of valid operands in all projective representations and both aliasing patterns (a separate generated specialisation for e.Add(e)): "
        "add, double, negate, subtract compute the group law of y^2=x^3+7 over ZMod p (p prime by checked Pratt certificates; no 2-torsion), results stay valid, "
        "nil arguments are no-ops, arguments are never written.",
-  note=TB + "Hand-modelled glue (nil handling, the copy inside Subtract) tied by the grouplaw family on raw triples incl. Z not in {0,1}, (0:Y:0), P=+-Q."),
+  note=TB + "The API methods Add/Double/Negate/Subtract (nil handling, the copy inside Subtract, both aliasing patterns) are regenerated with their callees inlined and tied to the model by rfl; "
+       "additionally compared by the grouplaw family on raw triples incl. Z not in {0,1}, (0:Y:0), P=+-Q."),
  "C03": dict(
   technique="Lean 4 proof: limb-level decoder models refine an executable SEC1 acceptance specification (Reduce borrow chain, ToMontgomery, SqrtRatio chain proved); correspondence for length/prefix logic",
   text="Kernel-checked (decode_spec, decode_accepts_iff and one theorem per decoder): for every receiver and every byte string the decoder accepts iff the SEC1 specification does "
@@ -34,12 +35,13 @@ CLAIMS = {
  "C05": dict(
   technique="Lean 4 proof: cross-multiplied comparison decides equality in the group for all representations, on the regenerated isEqual (both alias patterns)",
   text="Kernel-checked: Equal returns 1 iff the operands are the same element of Mathlib's group, else 0, is symmetric, and IsIdentity holds exactly for the identity, for all valid projective triples.",
-  note=TB + "eq family: re-scaled pairs, P/-P, endomorphism pairs sharing y, line mates (x1+y1=x2+y2), identity representations."),
+  note=TB + "Equal (both aliasing patterns) and IsIdentity are regenerated and tied by rfl. eq family: re-scaled pairs (incl. sparse-Montgomery scalings), P/-P, endomorphism pairs sharing y, line mates (x1+y1=x2+y2), identity representations."),
  "C06": dict(
   technique="Lean 4 proof: generated Fiat scalar functions = structured Montgomery reference by rfl, reference correct for any valid modulus; chain exponent evaluated in the kernel; Fermat",
   text="Kernel-checked over canonical limbs and ZMod n: Add, Subtract, Multiply, Square exact and canonical (aliasing is sound: the translator refuses reads after the first output write); "
        "Invert = x^-1 (0 -> 0) through the regenerated 293-step chain; SetUInt64 for every 64-bit value; Zero/One/MinusOne; nil conventions; Pow = s^t.",
-  note=TB + "Pow goes through math/big, modelled as exact modular powering (assumed). API wrappers tied by the scarith/sfarith families."),
+  note=TB + "Pow goes through math/big, modelled as exact modular powering (assumed). The methods Zero/One/MinusOne/Add/Subtract/Multiply/Square/Set/SetUInt64/IsZero/IsOne of scalar.go are regenerated (nil as none) and tied by rfl; "
+       "Pow and Invert wrappers are hand models tied by the scarith/sfarith families (boundary x boundary prefix)."),
  "C07": dict(
   technique="Lean 4 proof: scalar Encode/Decode refine big-endian integers below n (Reduce borrow chain and Montgomery conversions proved)",
   text="Kernel-checked: Encode is the 32-byte big-endian canonical value; Decode accepts exactly 32-byte strings below n and stores that integer, rejects the empty input, other lengths and values >= n "
@@ -60,7 +62,8 @@ CLAIMS = {
   text="Kernel-checked (step_refines, obs_refines, history_refines, always_valid, non_receivers_unchanged, copy_independent): for every finite history of API calls from the initial pools, with any "
        "receiver/argument aliasing, error tags and all observations (Encode, IsIdentity, pairwise Equal, scalar Encode, IsZero, Equal) after every step equal those of the abstract machine; every element stays a "
        "valid curve point; a step changes no variable but its receiver; copies are independent.",
-  note=TB + "The machine's steps are the API models of C01-C09/C13/C14 (same hand-modelled glue); tied by the history (40-step) and historylong (400-step) families observed after every step in Go and in both machines."),
+  note=TB + "The machine's steps are the API models of C01-C09/C13/C14; the arithmetic, comparison, Set/Copy/Identity steps are the regenerated methods (ties in the same file), decoding and hashing steps hand models; "
+       "tied by the history (40-step) and historylong (400-step) families observed after every step in Go and in both machines."),
  "C11": dict(
   technique="Lean 4 proof: regenerated SSWU equals the textbook map on every field element via a determining relation; regenerated isogeny equals the E.1 map; image on the curve by a checked polynomial certificate",
   text="Kernel-checked: for every field element u (the exceptional inputs 0 and +-sqrt(-1/Z) included, no side condition) SSWU returns the RFC 9380 6.6.2 point with sgn0(y)=sgn0(u); the 3-isogeny is the E.1 rational map; "
@@ -70,11 +73,12 @@ CLAIMS = {
   technique="Lean 4 proof: generated Fiat functions = structured reference by rfl, reference correct for any valid Montgomery modulus; bit tricks, chains, byte conversion proved; lawful-field instance",
   text="Kernel-checked for all canonical limb tuples: Add, Sub, Mul, Square, Neg exact in F_p and canonical; Invert (270-step chain) = x^-1; SqrtRatio meets the RFC 9380 F.2.1.2 contract; Sgn0, IsZero, Equals, CMove, "
        "FromBytesWithReduce, Bytes, HashToFieldElement, To/FromMontgomery; canonical forms are unique; p is prime.",
-  note=TB + "Thin method wrappers are hand models calling the generated code, tied by the field family (4000 / thorough 250000 edge-heavy operand tuples, near-equal pairs)."),
+  note=TB + "The method wrappers of internal/field/element.go (Add ... CMove, IsZero, Sgn0, Equals) are regenerated and tied to the operations record by rfl; byte conversion and the wide reduction are hand models "
+       "tied by the field family (4000 / thorough 1000000 edge-heavy operand tuples, near-equal pairs, alias variants)."),
  "C13": dict(
   technique="Lean 4 proof: bit-trick lemmas and Montgomery conversion give LessOrEqual = integer order, CSelect for every condition word",
   text="Kernel-checked: Equal/IsZero/IsOne decide equality of canonical values; LessOrEqual is the integer order of the canonical values; CSelect returns u for cond = 0 and v for every non-zero 64-bit condition word; nil cases.",
-  note=TB + "cmp/sfcmp families (condition words 0,1,2,3,2^32,2^63,2^64-1,random; raw-limb patterns)."),
+  note=TB + "Equal/LessOrEqual/IsZero/IsOne/CSelect of scalar.go and scalar.CMove are regenerated and tied by rfl. cmp/sfcmp families (condition words 0,1,2,3,2^32,2^63,2^64-1,random; raw-limb patterns; receiver aliasing either operand)."),
  "C14": dict(
   technique="Lean 4 proof: Bits = binary expansion of the canonical value, over the regenerated loop header/body and FromMontgomery",
   text="Kernel-checked: Bits returns exactly 256 entries, entry i is bit i of the canonical value, and their weighted sum is the value; the loop bound and body are read from the source on every run.",
